@@ -105,6 +105,16 @@ def ta_state_findings(rec, cfg, machine, prev_grants=None):
             elif not cp <= reserved:
                 out.append(F('C01', 'no-mixing-reserved', 'reserved-mixed',
                              'reserved container %s pinned to mix %s' % (c['id'], c['cpus']), seq))
+    # --- C09: a container that is not created/running holds nothing
+    for g in gl:
+        c = cache.get(g['id'])
+        if c is None:
+            out.append(F('C09', 'no-dangling-grant', 'grant-for-unknown-container', 'grant for container %s which is not in the cache' % g['id'], seq))
+        elif c['state'] not in LIVE:
+            out.append(F('C09', 'stopped-never-holds', 'stopped-container-holds-grant', '%s container %s holds a grant (%s, exclusive %s, %dm)' % (c['state'], g['id'], g['pool'], g['exclusive'], g['portion']), seq))
+    for cid in (ta['libmem'].get('users') or {}):
+        if cid not in grants:
+            out.append(F('C09', 'no-dangling-memory', 'memory-without-grant', 'memory allocation for %s which holds no grant' % cid, seq))
     # --- C03 capacity
     for p in ta['pools']:
         sub = subtree(p['name'])
